@@ -24,7 +24,7 @@ EXTENDS Integers, Sequences, FiniteSets, TLC, I32
 PartSize == 900        \* libtw2_gamenet_snap::MAX_SNAPSHOT_PACKSIZE
 MaxParts == 32
 
-Min(a, b) == IF a < b THEN a ELSE b
+Min2(a, b) == IF a < b THEN a ELSE b
 
 ------------------------------------------------------------------------
 (* Sender: delta_chunks *)
@@ -40,7 +40,7 @@ ChunkSeq(T) ==
   LET n == NumParts(T.len) IN
   IF n = 0 THEN << Msg("empty", T, 0, 0, 0, 0, 0) >>
   ELSE IF n = 1 THEN << Msg("single", T, 1, 0, T.crc, 0, T.len) >>
-  ELSE [j \in 1..n |-> Msg("part", T, n, j - 1, T.crc, PartSize * (j - 1), Min(PartSize * j, T.len))]
+  ELSE [j \in 1..n |-> Msg("part", T, n, j - 1, T.crc, PartSize * (j - 1), Min2(PartSize * j, T.len))]
 
 NumMsgs(T) == Len(ChunkSeq(T))
 
